@@ -65,7 +65,7 @@ PROPS["C18"] = {
         {"entry": M + "/pkg/panos.VerifMergePAN", "quick": {"N": "2"}, "thorough": {"N": "4"},
          "covers": ["two raw rules in front", "rule with APPEND"]},
         {"entry": M + "/pkg/nsx.VerifMergeNSX", "quick": {"N": "2"}, "thorough": {"N": "4"},
-         "covers": ["rules joined into one policy", "policy of raw part added"]},
+         "covers": ["rules joined into one policy", "policy of raw part added", "raw part with two policy objects of the same id"]},
     ],
 }
 
@@ -109,8 +109,10 @@ _graph_run = {"entry": ASA_GRAPH, "quick": {"full": "0"}, "thorough": {"full": "
 RT_ASA = {"entry": M + "/pkg/asa.VerifRoutesASA", "quick": {"N": "2"}, "thorough": {"N": "3"}, "extra": {"maxpaths": 3000000}, "covers": ["replace in one transaction", "no change reported"]}
 RT_IOS = {"entry": M + "/pkg/ios.VerifRoutesIOS", "quick": {"N": "2"}, "thorough": {"N": "2"}, "extra": {"maxpaths": 3000000}, "covers": ["replace in one transaction", "no change reported"]}
 _rt_text = " Routes (asa.VerifRoutesASA / ios.VerifRoutesIOS): device and target route sets are solver-chosen (2 IPv4 destinations x 3 hops; IOS global table and VRF v1 with several routes per destination, ASA one IPv6 destination), parsed by the real parser, planned by the real GetChanges / diffCmds / diffRoutes, executed on a routing table model; managed VRFs / address families must equal the target, unmanaged ones stay untouched, every destination routed before and after stays routed at every step, second compare silent."
-IOS_GRAPH = {"entry": M + "/pkg/ios.VerifIOSGraph", "extra": {"maxpaths": 1000000}, "covers": ["crypto map on device", "crypto map in target", "crypto map with a gap in its sequence numbers", "unknown interface checked", "unknown interface with crypto map of two entries", "changes emitted", "no change reported"]}
-_iosg_text = " IOS object graph (ios.VerifIOSGraph): interface with inbound ACL, interface with a crypto map of 0..2 entries per side keyed by peer (optional inbound filter ACL in two variants, device sequence numbers with or without a gap), optional interface unknown to Netspoc with its own ACL (name with or without -DRC-) or a crypto map of two entries with filter ACLs; parsed by the real parser, planned by the real GetChanges (diffCmds, matchCryptoMap, diffCryptoMap, checkIOSInterfaces, deleteUnused), executed on a text-level IOS store (modes, numbered ACL edits, bindings); interfaces must expand to the target's content, unknown interfaces and everything they reference stay byte-identical, second compare silent."
+IOS_GRAPH_SHARED = {"entry": M + "/pkg/ios.VerifIOSGraph", "params": {"part": "shared"}, "covers": ["one device ACL bound at two interfaces"]}
+IOS_GRAPH_VRF = {"entry": M + "/pkg/ios.VerifIOSGraph", "params": {"part": "vrf"}, "covers": ["interfaces of a VRF unknown to Netspoc on device", "two interfaces in the unmanaged VRF"]}
+IOS_GRAPH = {"entry": M + "/pkg/ios.VerifIOSGraph", "params": {"part": "crypto"}, "extra": {"maxpaths": 1000000}, "covers": ["crypto map on device", "crypto map in target", "crypto map with a gap in its sequence numbers", "unknown interface checked", "unknown interface with crypto map of two entries", "changes emitted", "no change reported"]}
+_iosg_text = " IOS object graph (ios.VerifIOSGraph): interface with inbound ACL, interface with a crypto map of 0..2 entries per side keyed by peer (optional inbound filter ACL in two variants, device sequence numbers with or without a gap), optional interface unknown to Netspoc with its own ACL (name with or without -DRC-) or a crypto map of two entries with filter ACLs; part shared: one device ACL bound at two interfaces while the target gives the second interface no ACL / the old content / another content; part vrf: 1..2 interfaces with generated-name ACLs in a VRF the target does not use beside a managed VRF; parsed by the real parser, planned by the real GetChanges (diffCmds, matchCryptoMap, diffCryptoMap, checkIOSInterfaces, deleteUnused), executed on a text-level IOS store (modes, numbered ACL edits, bindings); interfaces must expand to the target's content, unknown interfaces and everything they reference stay byte-identical, second compare silent."
 _graph_dmz = {"entry": ASA_GRAPH, "params": {"part": "dmz"}, "covers": ["interface unknown to Netspoc on device", "unknown interface is shut down", "unknown interface with in and out access-group"]}
 _graph_crypto = {"entry": ASA_GRAPH, "params": {"part": "crypto"}, "extra": {"maxpaths": 1000000}, "covers": ["crypto map on device", "crypto map on target", "crypto map entry with two transform-sets"]}
 _graph_cert = {"entry": ASA_GRAPH, "params": {"part": "cert"}, "covers": ["certificate map binding on device", "certificate map binding in target"]}
@@ -157,17 +159,17 @@ PROPS["C07"] = {
         {"entry": NSX, "quick": {"N": "2", "G": "1", "seqs": "1"}, "thorough": {"N": "2", "G": "2", "seqs": "1"}, "extra": {"maxpaths": 5000000}},
         {"entry": M + "/pkg/device.VerifDialogueNSX", "params": {"mode": "approve"}, "covers": ["approve succeeded"]},
         dict(_graph_run, covers=["protected object checked", "unmanaged ldap attribute-map on device", "unmanaged tunnel-group on device", "unmanaged group-policy on device", "left-over generated group-policy on device"]),
-        _graph_dmz, _graph_cert, dict(RT_ASA, covers=["routes of a VRF or address family without target routes"]), dict(RT_IOS, covers=["routes of a VRF or address family without target routes"]), IOS_GRAPH,
+        _graph_dmz, _graph_cert, dict(RT_ASA, covers=["routes of a VRF or address family without target routes"]), dict(RT_IOS, covers=["routes of a VRF or address family without target routes"]), IOS_GRAPH, IOS_GRAPH_SHARED, IOS_GRAPH_VRF,
     ],
 }
 PROPS["C07"]["explanation"] += _graph_text + _rt_text + _iosg_text
 for _p in ("C08", "C14"):
     PROPS[_p]["runs"] = PROPS[_p]["runs"] + [
         {"entry": ASA_ACL, "quick": {"N": "2", "K": "6", "G": "1"}, "thorough": {"N": "2", "K": "6", "G": "2"}, "extra": {"maxpaths": 3000000}}]
-PROPS["C08"]["runs"] = PROPS["C08"]["runs"] + [_graph_run, _graph_dmz, _graph_cert, _graph_crypto, RT_ASA, RT_IOS, IOS_GRAPH]
+PROPS["C08"]["runs"] = PROPS["C08"]["runs"] + [_graph_run, _graph_dmz, _graph_cert, _graph_crypto, RT_ASA, RT_IOS, IOS_GRAPH, IOS_GRAPH_SHARED, IOS_GRAPH_VRF]
 PROPS["C08"]["explanation"] += _iosg_text
 PROPS["C14"]["runs"] = PROPS["C14"]["runs"] + [RT_ASA, RT_IOS]
-PROPS["C02"]["runs"] = PROPS["C02"]["runs"] + [RT_IOS, IOS_GRAPH]
+PROPS["C02"]["runs"] = PROPS["C02"]["runs"] + [RT_IOS, IOS_GRAPH, IOS_GRAPH_SHARED, IOS_GRAPH_VRF]
 PROPS["C02"]["explanation"] += _iosg_text
 for _p in ("C02", "C08", "C14"):
     PROPS[_p]["explanation"] += _rt_text
